@@ -71,7 +71,7 @@ fn count_ones(b: &Bitstring) -> TestResults<Score<i64>> {
 }
 
 /// Size of a population / genome / collection derived from a data seed. Most are small (0..=small); a
-/// fixed fraction is medium (<= 70), large (<= 300) or huge (<= 1500), so that size-dependent fast paths
+/// fixed fraction is medium (<= 70), large (<= 300), huge (<= 1500) or giant (<= 20000), so that size-dependent fast paths
 /// (thresholds such as "16 x the tournament size", 64-bit words, chunked loops) are part of the registry.
 /// The class comes from the seed's top byte, so the Miri leg can restrict itself to small/medium sizes.
 fn sz(seed: u64, small: usize) -> usize {
@@ -82,7 +82,8 @@ fn sz(seed: u64, small: usize) -> usize {
         0..=165 => span(0, small),
         166..=216 => span(small + 1, 70.max(small + 2)),
         217..=247 => span(71, 300),
-        _ => span(301, 1500),
+        248..=253 => span(301, 1500),
+        _ => span(1501, 20_000),
     }
 }
 
